@@ -84,7 +84,7 @@ def r04_a(ctx):
     # --- expression-level children: filter over self.contents with an isinstance predicate
     fd = _m(texexpr, 'children', 'getter')
     iss = _isinstance_classes(repo, data, fd.node)
-    src_ok = any(norm(x) == 'self.contents' for x in ast.walk(fd.node))
+    src_ok = any(norm(x) in ('self.contents', 'self.all') for x in ast.walk(fd.node))
     if len(iss) != 1:
         rr.ob(False)
         rr.fail(Finding('R04.a', 'data', fd.qual, 'children predicate', 'the children view is not a single class '
@@ -157,6 +157,49 @@ def r04_a(ctx):
             rr.fail(Finding('R04.a', 'data', fd.qual, 'contents filter: %s' % problem,
                             'the contents view drops something other than whitespace-only text (or keeps it): it is no '
                             'longer the complete content list without blank text (%s)' % problem, line=fd.node.lineno))
+    # --- the views are defined once for the whole expression lattice: an override in a subclass is held to the same rule
+    for c in classes:
+        if c is texexpr:
+            continue
+        for view in ('all', 'contents', 'children'):
+            for ofd in c.methods.get(view, []):
+                if 'property' not in ofd.decorators:
+                    continue
+                body = [x for x in ofd.node.body if not (isinstance(x, ast.Expr) and isinstance(x.value, ast.Constant))]
+                if len(body) == 1 and isinstance(body[0], ast.Return) and body[0].value is not None \
+                        and norm(body[0].value) in ('super().%s' % view, 'super(%s, self).%s' % (c.name, view)):
+                    rr.ob(True, {'view': '%s.%s' % (c.name, view), 'override': 'delegates to the base view'})
+                    continue
+                if view != 'children':
+                    raise AnalysisError('%s.%s: an override of the %s view is not a recognised shape' % (c.name, view, view))
+                srcs = {norm(x) for x in ast.walk(ofd.node) if isinstance(x, ast.Attribute) and isinstance(x.value, ast.Name)
+                        and x.value.id == 'self' and x.attr in ('contents', 'all', '_contents', 'args')}
+                srcs |= {norm(x) for x in ast.walk(ofd.node) if isinstance(x, ast.Attribute) and norm(x) == 'super().children'}
+                whole = srcs and srcs <= {'self.contents', 'self.all', 'super().children'}
+                partial = srcs & {'self._contents', 'self.args'}
+                if not whole and not partial:
+                    raise AnalysisError('%s.children: the source of the overriding view is not recognised' % c.name)
+                rr.ob(bool(whole), {'view': '%s.children' % c.name, 'override_derived_from': sorted(srcs)})
+                if not whole:
+                    rr.fail(Finding('R04.a', 'data', ofd.qual, 'children of %s derived from %s' % (c.name, ', '.join(sorted(srcs))),
+                                    'the children view of %s is derived from %s instead of the contents view: children is no '
+                                    'longer contents without text, and what sits in the argument groups (or the body) is not '
+                                    'recursed into by descendants and search' % (c.name, ', '.join(sorted(partial))),
+                                    line=ofd.node.lineno))
+                    continue
+                oiss = _isinstance_classes(repo, data, ofd.node)
+                if len(oiss) != 1:
+                    raise AnalysisError('%s.children: the overriding view is not a single class predicate' % c.name)
+                ovar, onames, ocall = oiss[0]
+                for k in containers:
+                    okk = _admits(repo, data, onames, k)
+                    rr.ob(okk, {'view': '%s.children' % c.name, 'class': k.name, 'admitted': okk})
+                    if not okk:
+                        rr.fail(Finding('R04.a', 'data', ofd.qual, ocall, 'the children view of %s does not admit %s'
+                                        % (c.name, k.name), line=ocall.lineno))
+                if _admits(repo, data, onames, text_cls):
+                    rr.fail(Finding('R04.a', 'data', ofd.qual, ocall, 'the children view of %s admits text' % c.name,
+                                    line=ocall.lineno))
     # whitespace is dropped for every node the parser builds: the keep-whitespace flag is set only by the
     # constructor from its (default False) parameter, and no parser call turns it on
     flag_writes = []
